@@ -118,6 +118,13 @@ v('c11-f29-reverted', 'C11', 'C11/full-consumption', 'tokenizer-boundary', ('rog
 v('c17-f30-reverted', 'C17', 'C17/literal-decoding', 'cast-arity', ('rogw/tranp/implements/transpiler/evaluator.py', "		if len(arguments) != 1:\n			raise Errors.OperationNotAllowed(node, calls, arguments)\n\n", ""))
 v('c13-f32-reverted', 'C13', 'C13/quote-escape-independent-of-prefix', 'scan-ends-on-parity', ('rogw/tranp/implements/syntax/tranp/tokenizer.py', "			escapes = 0\n			while index - 1 - escapes >= end and source[index - 1 - escapes] == '\\\\':\n				escapes += 1\n\n			end = index + len(pair['close'])\n			if escapes % 2 == 0:\n				break\n", "			prev = max(end, index - 1)\n			end = index + len(pair['close'])\n			if not (source[prev] == '\\\\'):\n				break\n"))
 v('c07-f33-reverted', 'C07', 'C07/error-render-total', '__arg_to_str', ('rogw/tranp/view/error_render.py', "		try:\n			return f'\"{arg}\"' if isinstance(arg, str) else str(arg)\n		except Exception as e:\n			return f'<{arg.__class__.__name__}: unprintable ({e.__class__.__name__})>'\n", "		return f'\"{arg}\"' if isinstance(arg, str) else str(arg)\n"))
+v('c08-f34-reverted', 'C08', 'C08/template-name-substitution-anchored', "replace('return ')", ('data/cpp/template/assign/move_assign_declare.j2', "reg_replace('^return ', '', break_last_block(value, '{}')[1].strip())[:-1]", "(break_last_block(value, '{}')[1].strip() | replace('return ', ''))[:-1]"))
+v('c02-f35-reverted', 'C02', 'C02/decorator-tests-any-position', 'ClassMethod.match_feature', ('rogw/tranp/syntax/node/definition/statement_compound.py', "		return len([decorator for decorator in decorators if decorator.as_a(Decorator).path.tokens == 'classmethod']) > 0\n", "		return len(decorators) > 0 and decorators[0].as_a(Decorator).path.tokens == 'classmethod'\n"))
+v('c01-f36-reverted', 'C01', 'C01/range-arguments-honoured', 'comp/comp_for_range', ('data/cpp/template/comp/comp_for_range.j2', "{%- set args = break_separator(break_last_block(iterates, '()')[1], ',') -%}\n{%- if args | length == 1 -%}\nauto {{ symbols[0] }} = 0; {{ symbols[0] }} < {{ args[0] }}; {{ symbols[0] }}++\n{%- else -%}\nauto {{ symbols[0] }} = {{ args[0] }}; {{ symbols[0] }} < {{ args[1] }}; {{ symbols[0] }} += {{ args[2] if args | length > 2 else 1 }}\n{%- endif -%}\n", "{%- set size = break_last_block(iterates, '()')[1] -%}\nauto {{ symbols[0] }} = 0; {{ symbols[0] }} < {{ size }}; {{ symbols[0] }}++\n"))
+v('c11-f37-reverted', 'C11', 'C11/parser-keeps-no-parse-state', 'reset-per-parse', ('rogw/tranp/implements/syntax/tranp/syntax.py', "		# 最大到達位置は解析毎の状態。パーサーを再利用しても前回の解析結果を引き継がない\n		self.peek = 0\n", ""))
+v('c04-f38-reverted', 'C04', 'C04/extends-on-fresh-reflections-only', 'on_list', ('rogw/tranp/semantics/reflections.py', "extends(self.reflections.from_standard(Union).stack(node).extends(*known_types))", "extends(self.reflections.from_standard(Union).extends(*known_types))"))
+v('c17-f39-reverted', 'C17', 'C17/literal-decoding', 'concat:requoted', ('rogw/tranp/implements/transpiler/evaluator.py', "{self._requote(right[1:-1], right[0], quote)}", "{right[1:-1]}"))
+v('c10-f40-reverted', 'C10', 'C10/path-prefix-tests-anchored', 'Nodes.expand', ('rogw/tranp/syntax/node/query.py', "path.startswith(f'{cached}.')", "path.startswith(cached)"))
 # ---- C14 / C15 ----
 v('c14-key-renamed', 'C14', 'C14/record-keys-agree', 'Reflection', ('rogw/tranp/semantics/reflection/serializer.py', "				'origin': symbol.types.fullyname,", "				'org': symbol.types.fullyname,"))
 v('c14-via-from-origin', 'C14', 'C14/field-wiring', 'Options.via', ('rogw/tranp/semantics/reflection/serializer.py', "via = db[data['via']] if data['origin'] != data['via'] else None", "via = db[data['origin']] if data['origin'] != data['via'] else None"))
